@@ -202,7 +202,11 @@ func (w *c08World) bind(op *c08Op, made []*schema.StreamReader[int], created []i
 
 // ---- oracle ----
 
+var c08AskTime, c08ExecTime time.Duration
+
 func c08Ask(ctx *vh.Ctx, ops []c08Op) (*c08Reply, error) {
+	t0 := time.Now()
+	defer func() { c08AskTime += time.Since(t0) }()
 	raw, err := ctx.Oracle.Ask("C08", map[string]any{"ops": ops})
 	if err != nil {
 		return nil, err
@@ -258,8 +262,14 @@ func (s *c08Seq) step(op c08Op) (bool, error) {
 	if op.K == "recv" || op.K == "close" || op.K == "conv" || op.K == "copy" {
 		kind = c08KindOf(s.st, op.R)
 	}
-	s.ctx.Progress.Mark(map[string]any{"mode": s.c.Mode, "ops": append(append([]c08Op{}, s.c.Ops...), op)})
+	if n := len(s.c.Ops); n < 12 || n%8 == 0 || (op.K != "send" && op.K != "recv") {
+		// (a file write per step would dominate the run; the prefix up to the last constructor,
+		// close or every 8th op is enough to name a case that kills the process)
+		s.ctx.Progress.Mark(map[string]any{"mode": s.c.Mode, "tear": s.c.Tear, "ops": append(append([]c08Op{}, s.c.Ops...), op)})
+	}
+	t0 := time.Now()
 	made, status := s.w.exec(&op)
+	c08ExecTime += time.Since(t0)
 	s.c.Ops = append(s.c.Ops, op)
 	s.stats["op="+op.K]++
 	if status != "" {
@@ -952,6 +962,8 @@ func runC08(ctx *vh.Ctx) error {
 		time.Sleep(20 * time.Millisecond)
 	}
 	ctx.Res.Extra["goroutines_left"] = left
+	ctx.Res.Extra["oracle_time_s"] = c08AskTime.Seconds()
+	ctx.Res.Extra["impl_time_s"] = c08ExecTime.Seconds()
 	if left > 0 && len(ctx.Res.Disagreements) == 0 {
 		ctx.Res.Note(fmt.Sprintf("%d goroutine(s) still alive 1 s after the last case", left))
 	}
